@@ -258,6 +258,30 @@ func readAllWays(file []byte, withLexer bool) ([]view, error) {
 		return vs, nil
 	}
 	vs = append(vs, view{"Info", infoNeutral(info), false})
+	// the same Reader, used further: a sequential scan after Info, an index-preferring read, a second scan
+	for _, m := range []struct {
+		name string
+		opts []mcap.ReadOpt
+	}{
+		{"one Reader: scan after Info", []mcap.ReadOpt{mcap.UsingIndex(false)}},
+		{"one Reader: Messages() after a scan", nil},
+		{"one Reader: second scan", []mcap.ReadOpt{mcap.UsingIndex(false)}},
+	} {
+		r := readOn(rd, m.opts...)
+		if r.Panic != "" {
+			return nil, pk.Failf("panic", "%s: %s", m.name, r.Panic)
+		}
+		var sb strings.Builder
+		for i := range r.Items {
+			sb.WriteString(string(mustJSON(r.Items[i])))
+			sb.WriteByte('\n')
+		}
+		bad := r.OpenErr != nil || !errors.Is(r.Err, io.EOF)
+		if bad {
+			sb.WriteString("\nERR")
+		}
+		vs = append(vs, view{m.name, sb.String(), bad})
+	}
 	return vs, nil
 }
 
